@@ -163,6 +163,8 @@ def run(ctx):
     import m1_mainloop
     ctx.gen_tables.update(m1_mainloop.regen())      # reset statements of run() → lean/TLX/Gen/MainLoopConsts.lean
     import export_thms
+    import ob_outbytes
+    ctx.gen_tables.update(ob_outbytes.regen())      # Props/Export depends on the snaplen literal of run()
     ctx.prove(["TLX.Props.C18"] + export_thms.MODULES)
     ctx.require_theorems([t for t in m1_mainloop.THEOREMS if t.startswith("TLX.Props.C18.")] + [
         "TLX.Props.Export.export_ignores_prior_state", "TLX.Props.Export.export_is_function"])
